@@ -552,6 +552,9 @@ type HostPath struct {
 	AuthExt *AuthExternal
 	Backend HostBackend
 	RedirTo string
+	// StrictHost is true on the root path that config.SyncConfig() adds to
+	// hosts that do not declare it, see the strict-host global config.
+	StrictHost bool
 }
 
 // HostBackend ...
